@@ -7,13 +7,13 @@ import units
 TEXT = {
  "C02": ("Unbounded Verus proofs, on the real bodies extracted from /repo on every run: the four IR assembly functions keep every parsed component exactly once and in source order (root ++ additions; COMPONENTS OF split off in order); one component / alternative / SEQUENCE OF keeps name, tag, type and OPTIONAL/DEFAULT marking; Rasn::needs_unnesting hoists every anonymous constructed or decorated element type at any nesting depth. Emission of fields/variants, the component type table, default functions, recursion marking, the SEQUENCE parser and class-reference resolution are outside both verifiers and are covered only by bounded stand-ins (native execution of the same contract functions over stated finite domains), reported separately and never counted as proved.", "DESIGN.md §A, §4 C02"),
  "C03": ("Complete Kani proofs (loop-free, full scalar domain, in place on the real crate) of the X.680 §31.2.7 combination rule (all 9 pairs), of AsnTag::from (4 class keywords x all u64 x 3 keyword states) and of ModuleHeader::from's defaults; Verus proofs that a component / alternative / SEQUENCE OF element keeps its tag as written. Where the rule is applied (apply_tagging_environment, now recursive after a fix), tag rendering, tagged CHOICE forced explicit, automatic_tags and class-reference resolution are covered only by bounded stand-ins. Known finding: SEQUENCE OF element tags are never rendered (pinned by a snapshot test).", "DESIGN.md §A, §4 C03"),
- "C04": ("Complete Kani proof over the full Option<i128>^4 x bool^4 x i128 domain that serial application of PER-visible range constraints is exactly interval intersection with sticky extensibility; Verus proofs that constraint lists and the extensible flag of an element set are carried unchanged by the IR assembly. Set-expression folding (union hull, intersection, EXCEPT, MIN/MAX, outer marker), value-reference and named-number resolution and the emitted value/size annotations are covered only by bounded stand-ins; parser precedence, character ranges and ContainedSubtype are not covered.", "DESIGN.md §A, §4 C04"),
+ "C04": ("Unbounded Verus proof on the extracted body of fold_constraint_set that a set expression of integer values and ranges joined by UNION / INTERSECTION (any depth) folds to one element that contains every permitted value, is exactly the hull / the intersection on two elements, and is extensible exactly when an operand carries the marker; the same unit proves intersect_/union_single_and_range, ASN1Value::min/max, compare_/union_optional_asn1values and the two TryFrom impls that turn an element / a constraint into PerVisibleRangeConstraints (ends, outer-marker rule). Complete Kani proof over the full Option<i128>^4 x bool^4 x i128 domain that serial application (+=) is exactly interval intersection with sticky extensibility. Not proved (bounded stand-ins only): the EXCEPT and character-string arms, SIZE / FROM re-entry, ContainedSubtype, the filter loop of per_visible_range_constraints, the constraint parser, value-reference and named-number resolution, and the emitted value/size annotations.", "DESIGN.md §A, §4 C04"),
  "C05": ("Unbounded Verus proof that each assembled SEQUENCE/SET/CHOICE/ENUMERATED is extensible exactly when a marker was parsed and that the first-addition index equals the number of root members; Kani proof of the header's extensibility default. The general index clause for root lists containing COMPONENTS OF fails and is a listed known finding. [[ ]] group parsing, extension_addition marks, non_exhaustive (incl. EXTENSIBILITY IMPLIED and nested types) are covered only by bounded stand-ins.", "DESIGN.md §A, §4 C05"),
- "C06": ("Unbounded Verus proof that the two width-selection routines of the real code choose exactly the narrowest Rust integer type that holds [lo,hi], Integer when extensible or open-ended, and that both routines agree; complete Kani proof of IntegerType::max_restrictive over all 81 pairs. The fold over serial constraints (Integer::int_type; known finding) and the extensible flag handed to the component path are covered only by bounded stand-ins; literal tagging and rendering are not covered.", "DESIGN.md §A, §4 C06"),
+ "C06": ("Unbounded Verus proof that the two width-selection routines of the real code choose exactly the narrowest Rust integer type that holds [lo,hi], Integer when extensible or open-ended, and that both routines agree; complete Kani proofs of IntegerType::max_restrictive over all 81 pairs and of the const-vs-lazy decision ASN1Value::is_const_type over every width and every i128. The fold over serial constraints (Integer::int_type; known finding) and the extensible flag handed to the component path are covered only by bounded stand-ins; literal tagging and rendering are not covered.", "DESIGN.md §A, §4 C06"),
  "C07": ("Verus proof that octet strings of any length expand to their bits MSB first, 8 per octet, in order (incl. a bit-vector lemma for the bit positions); complete Kani proofs in place: hex digit table for every char, octet->bits for every byte with round trip, the well-known OID arc table row by row under every root; bits->octets for the stated bit-string lengths (bounded Kani). Named-bit lists and SEQUENCE/SET values with DEFAULTs are covered only by bounded stand-ins; literal parsing, reference resolution and value rendering are not covered.", "DESIGN.md §A, §4 C07"),
  "C14": ("Unbounded Verus proof that assign_enumeral_numbers implements X.680 §20.3/§20.6 exactly (explicit numbers kept; identifier-only root items get the successive smallest unused non-negative integers; identifier-only additions the smallest value unused in the root and greater than all preceding additions) and a lemma that all numbers of a type are pairwise distinct when the written numbers are valid. The nom item parser with the zip back onto names, and discriminant / identifier emission are covered only by bounded stand-ins.", "DESIGN.md §A, §4 C14"),
 }
-NOTE = "Trusted: Verus/z3, Kani/CBMC/CaDiCaL, rustc; vstd specs; the assume_specification / external_body items listed per run in evidence.coverage.trusted_base (scanned mechanically); extraction rules D1-D6/S1 (diff: ./check <id> --show-diff); everything listed under coverage.unverified_mechanisms_of_this_property is outside the claim."
+NOTE = "Trusted: Verus/z3, Kani/CBMC/CaDiCaL, rustc; vstd specs; the assume_specification / external_body items listed per run in evidence.coverage.trusted_base (scanned mechanically); extraction rules D1-D9/S1 (diff: ./check <id> --show-diff); everything listed under coverage.unverified_mechanisms_of_this_property is outside the claim."
 NA = {
  "C01": "rustc's verdict on quote!-assembled text is a whole-output relation against rasn's trait system; every function on the path returns TokenStream (Kani ICE on proc_macro2, Verus has no quote) — no function-level contract implies 'type-checks'",
  "C08": "totality over all strings of a nom-combinator parser, an un-memoised linker and format!-based rendering; Verus cannot ingest nom/str code, Kani did not finish str scanners on 3-byte inputs and proves no termination",
